@@ -165,6 +165,12 @@ def run_shard(params, rec):
                     code2 = prog.code[:off - L.CODE] + bytes(patched) + prog.code[off - L.CODE + ln:]
                     bytepos = "first" if j0 == 0 else ("last" if j0 == ln - 1 else "middle")
                 wit["byte"] = bytepos
+                if rng.random() < 0.3:
+                    # a breakpoint added between the write and the next run (it de-jits around its
+                    # address) must not make the pending code modification be forgotten
+                    bp_at = rng.choice(prog.instrs)[0]
+                    jitter.add_breakpoint(bp_at, lambda j: True)
+                    writer += " + add_breakpoint"
                 snap = jitlib.Outcome()
                 jitlib.snapshot(jitter, spec, snap)
                 # second run on the same jitter
